@@ -13,6 +13,13 @@ Proof.
   destruct (v <=? 4294967295); cbn [length]; rewrite le_enc_length; lia.
 Qed.
 
+Lemma enc_varint_length_small : forall v, v <= 65535 -> (length (enc_varint v) <= 3)%nat.
+Proof.
+  intros v Hv. unfold enc_varint.
+  destruct (v <? 253); [simpl; lia|].
+  destruct (N.leb_spec v 65535); [cbn [length]; rewrite le_enc_length; lia|lia].
+Qed.
+
 Lemma ip_to16_length : forall ip, length (ip_to16 ip) = 16%nat.
 Proof.
   intros ip. unfold ip_to16.
@@ -74,7 +81,7 @@ Theorem payload_len_le_max : forall pver mmp ebs m,
   len (enc_payload pver m) <= max_payload (kind_of m) pver ebs.
 Proof.
   intros pver mmp ebs m Hwf Hnr.
-  destruct m as [v| | |l|pv locs stop|pv locs stop|l|l|l|l|n|n|cmd code reason hash| |fee| |nf mrl|k];
+  destruct m as [v| | |l|pv locs stop|pv locs stop|l|l|l|l|n|n|cmd code reason hash| |fee| |nf mrl|d| |f h t fl|k];
     cbn [wf_msg] in Hwf; cbn [kind_of enc_payload max_payload]; try discriminate Hwf;
     try (change (len (@nil N)) with 0; apply N.le_0_l).
   - (* version *)
@@ -135,6 +142,15 @@ Proof.
     apply andb_prop in Hwf. destruct Hwf as [Hpv _]. rewrite Hpv. unfold len. rewrite le_enc_length. simpl. lia.
   - (* reject *) exfalso. apply Hnr. reflexivity.
   - (* feefilter *) unfold len. rewrite le_enc_length. simpl. lia.
+  - (* filteradd *)
+    apply andb_prop in Hwf. destruct Hwf as [_ Hd]. apply leb_true in Hd.
+    unfold enc_varstring, len, MaxFilterAddDataSize in *. rewrite app_length.
+    pose proof (enc_varint_length_small (N.of_nat (length d)) ltac:(lia)). lia.
+  - (* filterload *)
+    repeat (apply andb_prop in Hwf; destruct Hwf as [Hwf ?]).
+    match goal with H : (len f <=? MaxFilterLoadFilterSize) = true |- _ => apply leb_true in H; rename H into Hf end.
+    unfold enc_varstring, len, MaxFilterLoadFilterSize in *. rewrite !app_length, !le_enc_length.
+    pose proof (enc_varint_length_small (N.of_nat (length f)) ltac:(lia)). lia.
 Qed.
 
 (* WriteMessage does not refuse a well-formed message when the global maximum is not below the
